@@ -39,17 +39,18 @@ Print Assumptions C06_hash_input_injective.
    server's signature over H under the host key it was shown and stores that key.
    Premises: ECDH / X25519 commute (library), a signature made by the key owner verifies. *)
 Theorem C06_honest_run :
-  forall (hash : list Z -> list Z) (sign : Z -> list Z -> list Z) (verify : list Z -> list Z -> list Z -> bool) (sig_alg_ok : list Z -> bool)
+  forall (hash : list Z -> list Z) (sign : Z -> list Z -> list Z) (verify : list Z -> list Z -> list Z -> bool) (sig_alg_ok sig_canonical : list Z -> bool)
          (pubblob : Z -> list Z) (ec_pub : family -> Z -> list Z) (ec_dh : family -> Z -> list Z -> Z),
     (forall f x y, ec_dh f x (ec_pub f y) = ec_dh f y (ec_pub f x)) ->
     (forall o m, verify (pubblob o) m (sign o m) = true) ->
     (forall o m, sig_alg_ok (sign o m) = true) ->
+    (forall o m, sig_canonical (sign o m) = true) ->
     forall f x y o tb st_c st_s st_s' r,
       0 < t_p tb -> 0 <= x -> 0 <= y ->
       let t0 := with_client_pub ec_pub f x tb in
       server_handle hash sign pubblob ec_pub ec_dh f y o t0 st_s = Ok (st_s', r) ->
       exists st_c' k h,
-        client_handle hash verify sig_alg_ok ec_dh f x t0 st_c r = Ok st_c' /\
+        client_handle hash verify sig_alg_ok sig_canonical ec_dh f x t0 st_c r = Ok st_c' /\
         s_K st_c' = Some (PInt k) /\ s_K st_s' = Some (PInt k) /\
         s_H st_c' = Some (PBytes h) /\ s_H st_s' = Some (PBytes h) /\
         s_hostkey st_c' = Some (pubblob o) /\ verify (pubblob o) h (r_sig r) = true.
@@ -61,7 +62,7 @@ Print Assumptions C06_honest_run.
    Premises: injective hash, symbolic signatures (only sign o m verifies for (pubblob o, m); sign
    and pubblob are injective), ECDH / X25519 commute. *)
 Theorem C06_tamper_abort :
-  forall (hash : list Z -> list Z) (sign : Z -> list Z -> list Z) (verify : list Z -> list Z -> list Z -> bool) (sig_alg_ok : list Z -> bool)
+  forall (hash : list Z -> list Z) (sign : Z -> list Z -> list Z) (verify : list Z -> list Z -> list Z -> bool) (sig_alg_ok sig_canonical : list Z -> bool)
          (pubblob : Z -> list Z) (ec_pub : family -> Z -> list Z) (ec_dh : family -> Z -> list Z -> Z),
     (forall f x y, ec_dh f x (ec_pub f y) = ec_dh f y (ec_pub f x)) ->
     (forall a b, hash a = hash b -> a = b) ->
@@ -75,23 +76,32 @@ Theorem C06_tamper_abort :
       t_wf f Server (server_transcript pubblob ec_pub ec_dh f y o t0) = true ->
       t_wf f Client (client_transcript ec_dh f x t0 r') = true ->
       single_fault f r r' ->
-      forall st', client_handle hash verify sig_alg_ok ec_dh f x t0 st_c r' <> Ok st'.
+      forall st', client_handle hash verify sig_alg_ok sig_canonical ec_dh f x t0 st_c r' <> Ok st'.
 Proof. exact tamper_abort. Qed.
 Print Assumptions C06_tamper_abort.
 
 (* a failed signature check raises SSHException (the handler stops before _activate_outbound) *)
 Theorem C06_verify_fail_raises :
-  forall (verify : list Z -> list Z -> list Z -> bool) (sig_alg_ok : list Z -> bool) st hk sg d,
-    s_H st = Some (PBytes d) -> verify hk d sg = false -> verify_key verify sig_alg_ok st hk sg = Raise SSHExc.
+  forall (verify : list Z -> list Z -> list Z -> bool) (sig_alg_ok sig_canonical : list Z -> bool) st hk sg d,
+    s_H st = Some (PBytes d) -> verify hk d sg = false -> verify_key verify sig_alg_ok sig_canonical st hk sg = Raise SSHExc.
 Proof. exact verify_key_fail. Qed.
 Print Assumptions C06_verify_fail_raises.
+
+(* a signature blob is only ever accepted if it passed every pre-verification test present in
+   _verify_key (negotiated algorithm name; no bytes after the two strings of the blob) *)
+Theorem C06_accept_passes_guards :
+  forall (verify : list Z -> list Z -> list Z -> bool) (sig_alg_ok sig_canonical : list Z -> bool) st hk sg st',
+    verify_key verify sig_alg_ok sig_canonical st hk sg = Ok st' ->
+    (verify_alg_guard = true -> sig_alg_ok sg = true) /\ (verify_canonical_guard = true -> sig_canonical sg = true).
+Proof. exact verify_key_ok_guards. Qed.
+Print Assumptions C06_accept_passes_guards.
 
 (* with unforgeable signatures instead of the free algebra: if the client accepts a reply shown
    under the honest owner's host key, and that owner signed nothing but this session's H, then the
    client holds the server's K and H and hashed exactly the server's transcript -- whatever else
    the attacker changed *)
 Theorem C06_accept_authentic :
-  forall (hash : list Z -> list Z) (sign : Z -> list Z -> list Z) (verify : list Z -> list Z -> list Z -> bool) (sig_alg_ok : list Z -> bool)
+  forall (hash : list Z -> list Z) (sign : Z -> list Z -> list Z) (verify : list Z -> list Z -> list Z -> bool) (sig_alg_ok sig_canonical : list Z -> bool)
          (pubblob : Z -> list Z) (ec_pub : family -> Z -> list Z) (ec_dh : family -> Z -> list Z -> Z)
          (signed : Z -> list Z -> Prop),
     (forall a b, hash a = hash b -> a = b) ->
@@ -102,12 +112,18 @@ Theorem C06_accept_authentic :
       t_wf f Server (server_transcript pubblob ec_pub ec_dh f y o t0) = true ->
       t_wf f Client (client_transcript ec_dh f x t0 r') = true ->
       r_ks r' = pubblob o ->
-      client_handle hash verify sig_alg_ok ec_dh f x t0 st_c r' = Ok st' ->
+      client_handle hash verify sig_alg_ok sig_canonical ec_dh f x t0 st_c r' = Ok st' ->
       s_H st' = s_H st_s' /\ s_K st' = s_K st_s' /\ wire_pub f r' = wire_pub f r /\
       hash_fields f Server (client_transcript ec_dh f x t0 r') =
       hash_fields f Server (server_transcript pubblob ec_pub ec_dh f y o t0).
 Proof. exact accept_authentic. Qed.
 Print Assumptions C06_accept_authentic.
+
+(* the V_C / V_S a side hashes is the peer's identification line exactly as received (comments,
+   trailing spaces included), so both peers hash the same strings *)
+Theorem C06_version_exact : forall line, stored_version line = line.
+Proof. exact version_exact. Qed.
+Print Assumptions C06_version_exact.
 
 (* the session id is the H of the first exchange, after any sequence of exchanges and NEWKEYS *)
 Theorem C06_session_id_latch :
@@ -168,7 +184,7 @@ Example C06_hypotheses_satisfiable :
     t_wf f Server (server_transcript toy_pub toy_ecpub toy_ecdh f 15 7 t0) = true /\
     t_wf f Client (client_transcript toy_ecdh f 6 t0 (mkR (r_ks r) (r_f r + 1) (9 :: r_qs r) (r_sig r))) = true /\
     single_fault f r (mkR (r_ks r) (r_f r + 1) (9 :: r_qs r) (r_sig r)) /\
-    client_handle toy_hash toy_verify (fun _ => true) toy_ecdh f 6 t0 init_state r <> Raise SSHExc.
+    client_handle toy_hash toy_verify (fun _ => true) (fun _ => true) toy_ecdh f 6 t0 init_state r <> Raise SSHExc.
 Proof.
   intros f. destruct f; eexists; eexists; (split; [vm_compute; reflexivity|]);
     (split; [vm_compute; reflexivity|]); (split; [vm_compute; reflexivity|]);
